@@ -1,20 +1,26 @@
 """C13 - detected logic covers the formula; logic ordering and selection are sound.
 
 Part (a) - exhaustive finite relation, on the real ``pysmt.logics`` objects:
-  a-theories  every ordered pair of a universe of theories (quick: closure of the theories of the
-              named logics and of the theory oracle's atomic theories under ``combine`` and the
-              ``Theory`` setters; thorough: all 1728 well-formed attribute vectors): ``<=`` is
+  a-theories  every ordered pair of a universe of theories (all well-formed attribute vectors: 864
+              without floating_point in the quick tier, all 1728 in the thorough tier; a superset of
+              the closure of the theories of the named logics and of the theory oracle's atomic
+              theories under ``combine`` and the ``Theory`` setters): ``<=`` is
               reflexive / antisymmetric / transitive (all triples, decided on the recorded relation),
               ``<=`` never loses a feature (a <= b  =>  everything a enables is enabled by b),
               ``combine`` returns a well-formed upper bound of both arguments, ``==`` is attribute
               equality, no call mutates its arguments;
-  a-logics    all pairs/triples of the named logics: partial order up to name, ``< > >=`` agree
+  a-logics    all pairs/triples of the 76 named logics (LOGICS, PYSMT_LOGICS and the module constant
+              UF): partial order up to name, ``< > >=`` agree
               with ``<=``, ``<=`` never loses a feature or the quantifiers;
   a-select    ``get_closer_logic(S, L)`` for every target L (named logics and "detected" logics
               over the theory universe) and every S among the library's own supported lists and
-              all subsets of size <= 2 (quick) / <= 3 (thorough) of the 36 base logics:
+              all subsets of size <= 2 (quick) / <= 3, and <= 4 for named targets (thorough) of the
+              40 base logics (the ones written out in logics.py, i.e. without the generated
+              't' / '*' variants):
               result in S, L <= result, no s in S with L <= s < result, error iff no candidate;
               ``most_generic_logic(S)``; ``get_closer_smtlib_logic`` / ``get_closer_pysmt_logic``;
+  a-factory   ``Factory._get_solver_class`` over stand-in solver classes carrying those supported lists:
+              the (solver, logic) pair it returns satisfies the same obligations;
   a-tables    name table: names unique, ``get_logic_by_name`` and ``logics.get_logic(**flags)``
               return a logic with exactly the requested name / attributes.
 Part (b) - every term of the profiles (mc/core/profiles.py plus the edge profile below): an
@@ -528,21 +534,16 @@ def select_shard(args):
         for fname, S in fams:
             Sl = list(S)
             one(fname, Sl, (lambda S=S: LG.get_closer_logic(S, L)), "closer")
-        one("logics.SMTLIB2_LOGICS", _smtlib_view(L), (lambda: LG.get_closer_smtlib_logic(L)), "closer_smtlib")
+        # the two documented special answers (QF_BOOL -> QF_UF, BOOL -> LRA) are members of SMTLIB2_LOGICS
+        # above the target with nothing supported strictly below them, which is all the statement asks
+        one("logics.SMTLIB2_LOGICS", list(LG.SMTLIB2_LOGICS), (lambda: LG.get_closer_smtlib_logic(L)), "closer_smtlib")
         one("logics.PYSMT_LOGICS", list(LG.PYSMT_LOGICS), (lambda: LG.get_closer_pysmt_logic(L)), "closer_pysmt")
         for S in subsets[maxk_named if cls == "named" else maxk_detected]:
-            # cheap pre-filter only to label the case; the verdict recomputes the candidates
             one("subset", S, (lambda S=S: LG.get_closer_logic(S, L)), "closer")
         if idx == 0:
             res.sample({"part": "a-select", "target": _lname(L), "supported_logics_above": [s.name for s in up][:6]},
                        limit=1)
     return res
-
-
-def _smtlib_view(L):
-    """get_closer_smtlib_logic documents two special answers for the pure Boolean logics; they
-    are members of SMTLIB2_LOGICS above the target, which is all the statement asks"""
-    return list(LG.SMTLIB2_LOGICS)
 
 
 def _lname(L):
@@ -580,6 +581,96 @@ def run_select(ctx):
     ctx.pmap(generic_shard, [(i, NPROC, 3 if q else 4) for i in range(NPROC)])
     ctx.coverage["selection_targets"] = len(_U["targets"])
     ctx.coverage["supported_lists"] = [n for n, _ in _U["families"]]
+
+
+# =========================================================================================
+# part (a): solver selection in the factory (built on the functions above)
+# =========================================================================================
+
+def _fake_solvers():
+    """one stand-in solver class per supported list (only the LOGICS attribute is consulted)"""
+    out = {}
+    for i, (fname, S) in enumerate(sorted(families().items())):
+        out["s%02d" % i] = type("Stub_%02d" % i, (object,), {"LOGICS": S, "family": fname})
+    return out
+
+
+def factory_shard(args):
+    idx, nsh = args
+    from pysmt.factory import Factory
+    res = Result()
+    nle = _NamedLe()
+    env = Environment()
+    fac = Factory(env)
+    classes = _fake_solvers()
+    fac.preferences = dict(fac.preferences)
+    fac.preferences["Solver"] = sorted(classes)
+    targets = _U["targets"]
+
+    def pick(name, L):
+        return fac._get_solver_class(solver_list=classes, solver_type="Solver",
+                                     default_logic=fac.default_logic, name=name, logic=L)
+    for ti in range(idx, len(targets), nsh):
+        L, cls = targets[ti]
+        names = [None] + (sorted(classes) if cls == "named" else [])
+        supporting = [k for k in sorted(classes) if any(L <= l for l in classes[k].LOGICS)]
+        for name in names:
+            res.count("evaluations")
+            case = {"kind": "factory", "solver": name, "L": logic_case(L)}
+            if name is not None:
+                S = list(classes[name].LOGICS)
+                v = closer_verdict(S, L, (lambda: pick(name, L)[1]), nle)
+                fam = classes[name].family
+            else:
+                got = []
+
+                def call():
+                    got.append(pick(None, L))
+                    return got[0][1]
+                # the supported list is the one of whichever stub the factory chose
+                try:
+                    call()
+                except Exception as e:
+                    v = (("error-with-candidate", "raised %r although %s supports the logic" % (e, supporting[0]))
+                         if supporting else ("ok:error:%s" % type(e).__name__, None))
+                    fam = "-"
+                else:
+                    chosen = got[0][0]
+                    fam = getattr(chosen, "family", "?")
+                    if not any(chosen is c for c in classes.values()):
+                        v = ("unknown-solver", "returned the class %r" % (chosen,))
+                    else:
+                        v = closer_verdict(list(chosen.LOGICS), L, (lambda: got[0][1]), nle)
+            if v[1] is None:
+                res.outcome("factory:%s:%s" % ("named-solver" if name else "any-solver", v[0]))
+                if v[0].endswith(":choice"):
+                    res.count("nontrivial")
+                continue
+            _viol(res, "a-factory", "factory:%s" % v[0],
+                  "Factory._get_solver_class(name=%s [LOGICS=%s], logic=%s) %s" % (name, fam, _lname(L), v[1]), case)
+        # no logic given for a named solver: the selected logic must be one of the solver's own
+        if cls == "named" and ti < len(classes):
+            name = sorted(classes)[ti]
+            res.count("evaluations")
+            try:
+                c, lg = pick(name, None)
+            except Exception as e:
+                res.outcome("factory:default-logic:error:%s" % type(e).__name__)
+            else:
+                if not any(lg is s for s in classes[name].LOGICS):
+                    _viol(res, "a-factory", "factory:default-logic:not-in-S",
+                          "Factory._get_solver_class(name=%s [LOGICS=%s]) selected %s, which the solver does not list"
+                          % (name, classes[name].family, lg), {"kind": "factory", "solver": name, "L": None})
+                else:
+                    res.outcome("factory:default-logic:returned")
+    return res
+
+
+def run_factory(ctx):
+    if "targets" not in _U:
+        _U["families"] = sorted(families().items())
+        _U["targets"] = _targets(ctx.quick)
+    ctx.pmap(factory_shard, [(i, 2 * NPROC) for i in range(2 * NPROC)])
 
 
 # =========================================================================================
@@ -954,7 +1045,8 @@ def edge_profile(env, wide=True):
     pp, qq = p.sym("p", PR), p.sym("q", PR)
     As, Ai, Aii, Ab, Ars = p.sym("As", ASI), p.sym("Ai", AIS), p.sym("Aii", AII), p.sym("Ab", AB2B), p.sym("Ars", ARS)
     p.leaf(BOOL, a, m.TRUE())
-    p.leaf(INT, x, y, m.Int(0), m.Int(2))
+    # 2*y as a leaf: general linear (not difference) arithmetic below every operator already at depth 1
+    p.leaf(INT, x, y, m.Int(0), m.Int(2), m.Times(m.Int(2), y))
     p.leaf(REAL, r, s, m.Real(2))
     p.leaf(STRING, st, m.String("ab"))
     p.leaf(B2, u, m.BV(1, 2))
@@ -982,6 +1074,7 @@ def edge_profile(env, wide=True):
     p.op("iteI", [BOOL, INT, INT], INT, lambda m, f, g, h: m.Ite(f, g, h))
     p.op("iteS", [BOOL, S0, S0], S0, lambda m, f, g, h: m.Ite(f, g, h))
     p.op("iteSt", [BOOL, STRING, STRING], STRING, lambda m, f, g, h: m.Ite(f, g, h))
+    p.op("iteB2", [BOOL, B2, B2], B2, lambda m, f, g, h: m.Ite(f, g, h))
     p.op("inttostr", [INT], STRING, lambda m, f: m.IntToStr(f))
     p.op("strlen", [STRING], INT, lambda m, f: m.StrLength(f))
     p.op("strtoint", [STRING], INT, lambda m, f: m.StrToInt(f))
@@ -1054,16 +1147,18 @@ def parts(ctx):
            top_ops=_not_names("iteI", "iteS", "iteSt", "stoASI", "stoAII", "stoAB2B") if q else None,
            max_new=1 if q else 2))
     if not q:
-        A(dict(name="bool-d3", profile=lambda e: P.bool_profile(e, 2, consts=()), depth=3, shards=32,
-               mid_ops=_names("not", "and", "implies"), top_ops=_names(*_B2)))
         A(dict(name="quant-d3", profile=P.quant_profile, depth=3, shards=64,
-               mid_ops=_names("and", "not", "le", "bveq1", "bvult2", "forall_a", "exists_u", "forall_x", "exists_w"),
-               top_ops=lambda o: "_" in o.name or o.name in ("not", "and"), max_new=1))
+               mid_ops=_names("and", "not", "le", "bveq1", "forall_a", "exists_u", "forall_x", "exists_w"),
+               top_ops=lambda o: "_" in o.name or o.name == "not", max_new=1))
         A(dict(name="edge-d3", profile=edge_profile, depth=3, shards=64,
                mid_ops=_names("not", "eqI", "eqSt", "eqS", "leR", "timesI", "divR", "pow2I", "inttostr", "strlen",
                               "bv2nat", "selASI", "selAII", "app_f", "app_g", "app_k", "toreal", "forall_u",
-                              "exists_c", "forall_Aii", "exists_st"),
-               top_ops=_not_names("iteI", "iteS", "iteSt", "stoASI", "stoAII", "stoAB2B", "and"), max_new=1))
+                              "exists_c", "forall_Aii", "exists_st", "iteB2", "strcharat"),
+               top_ops=lambda o: o.name in ("not", "eqI", "eqSt", "eqS", "eqR", "leR", "leI", "pow2I", "pow2R",
+                                            "inttostr", "strlen", "strtoint", "bv2nat", "toreal", "selASI",
+                                            "selAIS", "selAII", "app_f", "app_g", "app_h", "app_k", "app_pr",
+                                            "app_sf") or "_" in o.name and not o.name.startswith("app_"),
+               max_new=1))
     return ps
 
 
@@ -1072,7 +1167,7 @@ def parts(ctx):
 # =========================================================================================
 
 A_PARTS = (("a-theories", run_theories), ("a-logics", run_logics), ("a-select", run_select),
-           ("a-tables", run_tables))
+           ("a-factory", run_factory), ("a-tables", run_tables))
 
 
 def run(ctx):
@@ -1153,6 +1248,14 @@ def replay(rec):
         if v[1] is None:
             return True, "%s: %s" % (kind, v[0])
         return False, "%s: %s" % (kind, v[1])
+    if kind == "factory":
+        _U["families"] = sorted(families().items())
+        L = logic_from_case(case["L"]) if case.get("L") else None
+        _U["targets"] = [(L, "named" if case.get("solver") else "detected")] if L is not None else _targets(True)[:30]
+        r = factory_shard((0, 1))
+        if r.violations:
+            return False, r.violations[0]["msg"]
+        return True, "factory selection is sound for this target"
     if kind in ("table", "by-name", "by-flags"):
         ctx = type("C", (), {})()
         ctx.res = res
